@@ -14,7 +14,7 @@ def f4_tree():
 
 def run(tier):
     C = Check('C03', tier)
-    C.prove('Properties/C03.v')
+    C.prove('Properties/C03.v', bridges={'Properties/C03T.v': []})
     C.cov['tie']['protocol_code_generator + generated code'] = ('correspondence-only: real generator + generated deserializers executed; reference semantics '
                                                                'Model/Elab.v + Model/Deser.v over the reader model R')
     quick = tier == 'quick'
@@ -38,6 +38,27 @@ def run(tier):
     f4 = dict(name='F4-shape', tree=f4_tree(), jobs=[dict(op='deser', cls='Holder', data=[2, 0xFF, 1], chunked=False),
                                                      dict(op='deser', cls='Holder', data=[2, 3, 4, 5], chunked=False)])
     run_entries(C, runner, entries + [f4])
+    # ---- which classes does the termination theorem (C03_terminates_core) cover?  decided in Coq per tree
+    prog = {}
+    try:
+        fn = os.path.join(COQ, 'Cases', 'c03p.v')
+        os.makedirs(os.path.dirname(fn), exist_ok=True)
+        acc = [e for e in entries + [f4] if e['result'].get('accepted')]
+        with open(fn, 'w') as f:
+            f.write("From EO Require Import Prelude.Py Model.Spec Model.Elab Model.GenHarnessB.\nOpen Scope string_scope.\nOpen Scope list_scope.\n")
+            for k, e in enumerate(acc):
+                f.write(f"Definition t{k} : list rfile := {coq_tree(e['tree'])}.\nEval vm_compute in (tree_progress t{k}).\n")
+        rc, out = sh(['bash', '-c', f'ulimit -s unlimited 2>/dev/null; exec timeout 600 coqc -Q {COQ} EO -w -all {fn}'], cwd=COQ, timeout=700)
+        chunks = re.split(r'\n\s*=\s*', '\n' + out)[1:]
+        if rc == 0 and len(chunks) == len(acc):
+            for e, ch in zip(acc, chunks):
+                for n, a, b in re.findall(r'\("([^"]*)",\s*(true|false),\s*(true|false)\)', ch):
+                    prog[(id(e), n)] = (a == 'true', b == 'true')
+        else:
+            C.broken.append(dict(kind='correspondence', stream='progress', msg=out[-500:]))
+    except Exception as ex:
+        C.broken.append(dict(kind='correspondence', stream='progress', msg=str(ex)[-300:]))
+    C.cov['termination_theorem_applies'] = dict(classes=len(prog), covered_nonchunked=sum(1 for v in prog.values() if v[0]), covered_chunked=sum(1 for v in prog.values() if v[1]))
     # ---- property oracle on the implementation: terminates, only the documented ValueError, position inside the data
     ndeser = nerr = ntrunc = 0
     kinds = {}
@@ -67,7 +88,10 @@ def run(tier):
             elif not (0 <= d['pos'] <= len(d['data'])):
                 bad = f"{cls}.deserialize left the reader at position {d['pos']} outside the {len(d['data'])} supplied bytes"
             if bad:
-                key = 'F4-chunked-element-in-unchunked-implied-length-array' if e is f4 and 'time limit' in bad else None
+                # a hang on a class OUTSIDE the termination theorem's domain (progress_okT = false) is the known shape F4;
+                # a hang on a class the theorem covers would contradict it and is reported as a new violation
+                covered = prog.get((id(e), cls), (True, True))[1 if d['chunked'] else 0]
+                key = 'F4-chunked-element-in-unchunked-implied-length-array' if 'time limit' in bad and (e is f4 or not covered) else None
                 C.violation(f"tree '{e['name']}': " + bad, dict(unit='generated deserialize', input=dict(tree=e['name'], xml=tree_xml(e['tree']), cls=cls, data=d['data'], chunked=d['chunked'])), key=key)
     C.stream('oracle.deserialize', ndeser, ndeser - 0, sample=dict(tree=entries[0]['name']))
     C.cov['distribution'] = dict(deserialize_calls=ndeser, truncated_valid_serializations=ntrunc, raised=nerr, exception_kinds=kinds)
